@@ -123,3 +123,79 @@ func (E *Engine) tableObligations(p string, enc *FnEnc) {
 		enc.obls = append(enc.obls, o)
 	}
 }
+
+// stableKey returns the heap key of a stable field declaration.
+func (E *Engine) stableKeys() map[string]*StableField {
+	if E.stable != nil {
+		return E.stable
+	}
+	E.stable = map[string]*StableField{}
+	for _, sf := range E.CS.StableFields {
+		sp := E.L.SSA[sf.Pkg]
+		if sp == nil {
+			continue
+		}
+		tn, ok := sp.Pkg.Scope().Lookup(sf.Type).(*types.TypeName)
+		if !ok {
+			continue
+		}
+		st, ok := tn.Type().Underlying().(*types.Struct)
+		if !ok {
+			continue
+		}
+		for i := 0; i < st.NumFields(); i++ {
+			if st.Field(i).Name() == sf.Field {
+				E.stable[fieldKeyOf(tn.Type(), i)] = sf
+			}
+		}
+	}
+	return E.stable
+}
+
+// stableObligations: every store to a stable field is rooted at an allocation of the same
+// function or happens in a listed writer.
+func (E *Engine) stableObligations(p string, enc *FnEnc) {
+	for key, sf := range E.stableKeys() {
+		if !hasProp(sf.Props, p) {
+			continue
+		}
+		var bad []string
+		for _, fk := range E.L.sortedFuncKeys() {
+			fn := E.L.Funcs[fk]
+			allowed := false
+			for _, w := range sf.Writers {
+				if w == fk {
+					allowed = true
+				}
+			}
+			if allowed {
+				continue
+			}
+			for _, b := range fn.Blocks {
+				for _, in := range b.Instrs {
+					st, ok := in.(*ssa.Store)
+					if !ok {
+						continue
+					}
+					w := map[string]bool{}
+					addrKeys(st.Addr, w)
+					if !w[key] {
+						continue
+					}
+					if _, fresh := addrRoot(st.Addr).(*ssa.Alloc); fresh {
+						continue
+					}
+					bad = append(bad, fmt.Sprintf("%s (%s)", fk, E.L.Prog.Fset.Position(st.Pos())))
+				}
+			}
+		}
+		cond := "true"
+		text := fmt.Sprintf("%s.%s is assigned only in freshly allocated objects (writers exempt: %s)", sf.Type, sf.Field, strings.Join(sf.Writers, ", "))
+		if len(bad) > 0 {
+			cond = "false"
+			text += " -- but also stored by: " + strings.Join(bad, "; ")
+		}
+		enc.obls = append(enc.obls, &Obl{Name: fmt.Sprintf("%s#frame.stable[%s.%s]", sf.Pkg, sf.Type, sf.Field), Kind: "frame.stable", Func: "lemmas",
+			Props: sf.Props, PC: "true", Cond: cond, Pos: fmt.Sprintf("%s:%d", strings.TrimPrefix(sf.File, repoDir+"/"), sf.Line), Text: text, enc: enc, Trivial: cond == "true"})
+	}
+}
